@@ -177,6 +177,12 @@ func runC19(r *vk.Run) {
 			if rng.Bool() {
 				ds.Recs[i].Labels["raw"] = string(rng.Bytes(rng.Range(0, 3)))
 			}
+			// Docker keeps the line terminator inside the message: a filter selects lines, it does not
+			// edit them
+			if rng.Chance(1, 3) {
+				ds.Recs[i].Line += vk.Pick(rng, []string{"\n", "\r\n", "\n\n", "\r"})
+				c.Count("lines_with_terminator", 1)
+			}
 		}
 		unknown, undecided := 0, 0
 		var qt string
